@@ -37,16 +37,16 @@ theorem memoOK_cons {g : GeneRef} {σ : CanonMemo} (h : MemoOK g σ) (it : Iv) (
   · rfl
   · exact h e he
 
-theorem checkSites_spec (g : GeneRef) (st : Strand) :
+theorem checkSitesStrand_spec (g : GeneRef) (st : Strand) :
     ∀ (introns : List Iv) (σ : CanonMemo), MemoOK g σ →
-      (checkSites g introns st σ).1 = introns.all (fun it => canonCompute g it st) ∧
-      MemoOK g (checkSites g introns st σ).2 := by
+      (checkSitesStrand g introns st σ).1 = introns.all (fun it => canonCompute g it st) ∧
+      MemoOK g (checkSitesStrand g introns st σ).2 := by
   intro introns
   induction introns with
-  | nil => intro σ h; exact ⟨by simp [checkSites], by simpa [checkSites] using h⟩
+  | nil => intro σ h; exact ⟨by simp [checkSitesStrand], by simpa [checkSitesStrand] using h⟩
   | cons it rest ih =>
     intro σ h
-    simp only [checkSites, List.all_cons]
+    simp only [checkSitesStrand, List.all_cons]
     split
     · rename_i v hv
       have hv' : v = canonCompute g it st := h _ (lookup_mem hv)
@@ -66,6 +66,31 @@ theorem checkSites_spec (g : GeneRef) (st : Strand) :
         refine ⟨by simp [hvf'], ?_⟩
         exact memoOK_cons h it st
 
+
+/-- the answer the statement demands for (sequence, introns, strand): every intron canonical on the strand; for the
+    unknown strand `.`: the whole chain canonical on `+`, or the whole chain canonical on `-` -/
+def pureAll (g : GeneRef) (introns : List Iv) (st : Strand) : Bool :=
+  if st = .dot then (introns.all fun it => canonCompute g it .plus) || (introns.all fun it => canonCompute g it .minus)
+  else introns.all fun it => canonCompute g it st
+
+theorem checkSites_spec (g : GeneRef) (st : Strand) (introns : List Iv) (σ : CanonMemo) (h : MemoOK g σ) :
+    (checkSites g introns st σ).1 = pureAll g introns st ∧ MemoOK g (checkSites g introns st σ).2 := by
+  unfold checkSites pureAll
+  by_cases hd : st = .dot
+  · simp only [hd, if_true]
+    have h1 := checkSitesStrand_spec g .plus introns σ h
+    have h2 := checkSitesStrand_spec g .minus introns _ h1.2
+    cases hb : (checkSitesStrand g introns .plus σ).1 with
+    | true =>
+      rw [hb] at h1
+      simp only [if_true]
+      exact ⟨by rw [← h1.1]; rfl, h1.2⟩
+    | false =>
+      rw [hb] at h1
+      simp only [Bool.false_eq_true, if_false]
+      exact ⟨by rw [h2.1, ← h1.1]; rfl, h2.2⟩
+  · simp only [hd, if_false]
+    exact checkSitesStrand_spec g st introns σ h
 
 /-! ### slices -/
 
